@@ -77,6 +77,38 @@ fn expectation(r: &mut Rng, used: &mut Vec<String>, time_claims: bool) -> ClaimS
     }
 }
 
+/// the same value with the first nested array of >= 2 distinct-ended elements reversed
+fn permute_nested(v: &Value) -> Option<Value> {
+    match v {
+        Value::Array(a) if a.len() >= 2 && a.first() != a.last() => {
+            let mut b = a.clone();
+            b.reverse();
+            Some(Value::Array(b))
+        }
+        Value::Array(a) => {
+            for (i, x) in a.iter().enumerate() {
+                if let Some(p) = permute_nested(x) {
+                    let mut b = a.clone();
+                    b[i] = p;
+                    return Some(Value::Array(b));
+                }
+            }
+            None
+        }
+        Value::Object(o) => {
+            for (k, x) in o {
+                if let Some(p) = permute_nested(x) {
+                    let mut b = o.clone();
+                    b.insert(k.clone(), p);
+                    return Some(Value::Object(b));
+                }
+            }
+            None
+        }
+        _ => None,
+    }
+}
+
 fn mutate_value(r: &mut Rng, v: &Value) -> Value {
     match v {
         Value::String(s) => match r.below(4) {
@@ -117,6 +149,12 @@ fn mutate_value(r: &mut Rng, v: &Value) -> Value {
             1 => json!(b.to_string()),
             _ => json!(if *b { 1 } else { 0 }),
         },
+        Value::Array(a) if a.len() >= 2 && a.first() != a.last() && r.chance(1, 2) => {
+            // the same elements in another order: a different JSON value
+            let mut b = a.clone();
+            b.reverse();
+            Value::Array(b)
+        }
         Value::Array(a) => {
             let mut b = a.clone();
             if b.is_empty() || r.chance(1, 2) {
@@ -127,6 +165,12 @@ fn mutate_value(r: &mut Rng, v: &Value) -> Value {
             Value::Array(b)
         }
         Value::Object(o) => {
+            // half of the time: an array somewhere inside gets its elements in another order
+            if r.chance(1, 2) {
+                if let Some(p) = permute_nested(v) {
+                    return p;
+                }
+            }
             let mut b = o.clone();
             b.insert("zz".into(), json!(1));
             Value::Object(b)
@@ -297,6 +341,11 @@ fn gen(ctx: &GenCtx, i: u64, prop: &str) -> Option<Run> {
             (ClaimSpec::Aud(_), 0) => ClaimSpec::Aud("good".into()),
             (ClaimSpec::Jti(_), 0) => ClaimSpec::Jti("good".into()),
             (ClaimSpec::Iss(_), 0) => ClaimSpec::Iss("good".into()),
+            _ => claim,
+        };
+        // one registration in sixteen (custom keys): the claim object handed to validate_claim has no JSON form
+        let claim = match &claim {
+            ClaimSpec::Custom { key, .. } if prop == "C16" && r.chance(1, 16) => ClaimSpec::Native { key: key.clone(), val: NativeVal::Unserialisable },
             _ => claim,
         };
         let claim = match (claim.key(), r.below(3)) {
